@@ -582,6 +582,9 @@ class Manager:
         # TODO: Refactor this method.
 
         if event.cancelled:
+            # nothing is dispatched, but the event is done: events that
+            # caused it, or wait for it, must not wait for ever
+            self._eventDone(event)
             return
 
         if event.complete:
